@@ -290,6 +290,50 @@ fn arith(n: u64, seed: u64, full_grid: bool) {
             }
         }
     }
+    // 1b. boundaries of PRODUCT ranges: for c in {i64::MAX, u64::MAX, i32::MAX, u32::MAX} and a unit u in
+    // {10^3, 10^6, 10^9}: seconds c/u and c/u +- 1 with nanoseconds 0, 1, (c % u) - 1, c % u, (c % u) + 1,
+    // 10^9 - 1 - where a conversion of the whole value to milli/micro/nanoseconds in a 32/64-bit
+    // integer starts to overflow
+    {
+        let mut vals: Vec<(i64, i64)> = vec![];
+        for c in [i64::MAX as u128, u64::MAX as u128, i32::MAX as u128, u32::MAX as u128] {
+            for u in [1_000u128, 1_000_000, 1_000_000_000] {
+                for ds in [-1i128, 0, 1] {
+                    let sec = (c / u) as i128 + ds;
+                    if sec < 0 || sec > i64::MAX as i128 {
+                        continue;
+                    }
+                    let r = (c % u) as i128;
+                    for ns in [0i128, 1, r - 1, r, r + 1, 999_999_999] {
+                        if (0..1_000_000_000).contains(&ns) && !vals.contains(&(sec as i64, ns as i64)) {
+                            vals.push((sec as i64, ns as i64));
+                        }
+                    }
+                }
+            }
+        }
+        for &v in &vals {
+            let iv = mk_instant(TimeSpec::new(v.0, v.1));
+            let sv = SystemTime::from(TimeSpec::new(v.0, v.1));
+            let partners = [(0i64, 0i64), (v.0, 0), (v.0, 999_999_999), v, (v.0.saturating_add(1), 0), ((v.0 - 1).max(0), 999_999_999), (1, 1)];
+            for &w in &partners {
+                let iw = mk_instant(TimeSpec::new(w.0, w.1));
+                let sw = SystemTime::from(TimeSpec::new(w.0, w.1));
+                out.ev(&json!({"ty":"instant","op":"diff","a":tv(v.0,v.1),"b":tv(w.0,w.1),"out": out_dur(guarded(|| iv - iw))}));
+                out.ev(&json!({"ty":"instant","op":"diff","a":tv(w.0,w.1),"b":tv(v.0,v.1),"out": out_dur(guarded(|| iw - iv))}));
+                out.ev(&json!({"ty":"system","op":"diff","a":tv(v.0,v.1),"b":tv(w.0,w.1),"via":"duration_since","out": out_dur(guarded(|| sv.duration_since(sw)))}));
+                out.ev(&json!({"ty":"system","op":"diff","a":tv(w.0,w.1),"b":tv(v.0,v.1),"via":"duration_since","out": out_dur(guarded(|| sw.duration_since(sv)))}));
+                // the same numbers as a Duration added to / subtracted from the partner
+                let d = Duration::new(v.0 as u64, v.1 as u32);
+                out.ev(&json!({"ty":"instant","op":"add","a":tv(w.0,w.1),"b":dv(d),"out": out_ts(guarded(|| (iw + d).map(|x| *x.as_ref())))}));
+                out.ev(&json!({"ty":"system","op":"sub","a":tv(w.0,w.1),"b":dv(d),"out": out_ts(guarded(|| (sw - d).map(ts_of_system)))}));
+                let dw = Duration::new(w.0 as u64, w.1 as u32);
+                out.ev(&json!({"ty":"instant","op":"sub","a":tv(v.0,v.1),"b":dv(dw),"out": out_ts(guarded(|| (iv - dw).map(|x| *x.as_ref())))}));
+                out.ev(&json!({"ty":"system","op":"add","a":tv(v.0,v.1),"b":dv(dw),"out": out_ts(guarded(|| (sv + dw).map(ts_of_system)))}));
+            }
+            out.ev(&json!({"ty":"system","op":"since_unix","a":tv(v.0,v.1),"b":tv(0,0),"out": out_dur(guarded(|| Some(sv.duration_since_unix_time())))}));
+        }
+    }
     // 2. random, boundary-biased, with related operands
     for _ in 0..n {
         let a = (g.secs_pos(), g.nanos());
@@ -536,6 +580,42 @@ fn clock(threads: usize, readings: usize) {
     // own thread (lane) and is hit by SIGUSR1 (pthread_kill, handler without SA_RESTART) at chosen
     // offsets by a helper thread (lane + 100) that records a clock reading per signal.  The sleeps
     // run concurrently, so this costs as long as the longest one (about 2 s).
+    // HUGE sleeps (i64::MAX s, u64::MAX s, Duration::MAX), undisturbed and hit by one / two signals:
+    // started here, looked at after the long sleeps below (>= 2 s later): the sleeper must still be
+    // asleep, or have returned a clean Err (a duration the kernel interface cannot express); an Ok
+    // return is "returned early".  The sleeping threads die with the process.
+    let huge_start = std::time::Instant::now();
+    let mut huge = vec![];
+    for (k, (name, d, sigs)) in [
+        ("i64::MAX s", Duration::new(i64::MAX as u64, 0), 0u32),
+        ("i64::MAX s", Duration::new(i64::MAX as u64, 0), 1),
+        ("i64::MAX s + 999999999 ns", Duration::new(i64::MAX as u64, 999_999_999), 2),
+        ("u64::MAX s", Duration::new(u64::MAX, 0), 1),
+        ("Duration::MAX", Duration::MAX, 0),
+        ("2^40 s", Duration::new(1 << 40, 5), 1),
+    ].into_iter().enumerate() {
+        let (ptx, prx) = std::sync::mpsc::channel::<usize>();
+        let (rtx, rrx) = std::sync::mpsc::channel::<String>();
+        std::thread::spawn(move || {
+            ptx.send(unsafe { libc::pthread_self() } as usize).unwrap();
+            let r = guarded(|| tiny_std::thread::sleep(d));
+            let _ = rtx.send(match r {
+                Ok(Ok(())) => "ok".to_string(),
+                Ok(Err(_)) => "err".to_string(),
+                Err(m) => format!("panic:{m}"),
+            });
+        });
+        let target = prx.recv().unwrap();
+        if sigs > 0 {
+            std::thread::spawn(move || {
+                for _ in 0..sigs {
+                    std::thread::sleep(std::time::Duration::from_millis(300));
+                    unsafe { libc::pthread_kill(target as libc::pthread_t, libc::SIGUSR1) };
+                }
+            });
+        }
+        huge.push((threads + 40 + k, name, sigs, rrx));
+    }
     {
         use std::sync::mpsc;
         let plans: Vec<(Duration, Vec<u64>)> = vec![
@@ -588,6 +668,20 @@ fn clock(threads: usize, readings: usize) {
             out.ev(&json!({"ev":"sleep","lane":lane,"ds":d.as_secs(),"dns":d.subsec_nanos(),
                 "bs":before.0,"bns":before.1,"s":after.0,"ns":after.1,"res":res,"signals":sent.len(),"long":true}));
         }
+    }
+    // the huge sleeps: at least 2 s after they started
+    let waited = huge_start.elapsed();
+    if waited < std::time::Duration::from_millis(2000) {
+        std::thread::sleep(std::time::Duration::from_millis(2000) - waited);
+    }
+    for (lane, name, sigs, rrx) in huge {
+        let (returned, res) = match rrx.try_recv() {
+            Ok(r) => (1, r),
+            Err(_) => (0, String::new()),
+        };
+        let t = mono();
+        out.ev(&json!({"ev":"hugesleep","lane":lane,"d":name,"signals":sigs,"returned":returned,"res":res,
+            "waited_ms":huge_start.elapsed().as_millis() as u64,"s":t.0,"ns":t.1}));
     }
     out.flush();
 }
